@@ -625,6 +625,10 @@ func runC12(env *Env) {
 					break
 				}
 			}
+			if len(toks) == 1 && toks[0] == "shared" {
+				env.Emit("C12 shared", c12Shared())
+				continue
+			}
 			c := parseC12(toks)
 			// the property is schedule dependent: a replayed case is run several times, with
 			// different timing / burst windows / write splitting drawn from the PRNG
@@ -634,6 +638,8 @@ func runC12(env *Env) {
 		}
 		return
 	}
+	env.Count("shared/one-domain-one-template-id-many-connections")
+	env.Emit("C12 shared", c12Shared())
 	r := env.Rng
 	n := 300
 	if c12Soak {
